@@ -1117,6 +1117,26 @@ def regex_phase(ctx: Ctx, n_cases: int) -> None:
 # generators (model printE/readE, crep, rules of Model/Print.lean)
 # ------------------------------------------------------------------------------------------------
 
+def finding_listed(signature: str) -> bool:
+    """is the signature entered in known_findings.json (any status)?  The input class of a finding reported to the
+    lead is generated from the moment it is listed (then reported through run.report: KNOWN-FINDING while open)"""
+    from harness.common import load_known
+    return any(k.get("property") == PID and k.get("signature") == signature for k in load_known())
+
+
+def multi_entry_group_on_dotted_base(s: list) -> bool:
+    """the input class of C15/selector-parens-dropped: a `{…}` group with >= 2 entries whose base is not a plain
+    non-terminal (its parentheses are not printed, and the entries-first loop of SelectiveSearch._find makes the
+    ORDER of what is found depend on them)"""
+    if s[0] == "rule":
+        return False
+    if s[0] in ("attr", "desc"):
+        return multi_entry_group_on_dotted_base(s[1]) or multi_entry_group_on_dotted_base(s[2])
+    if s[0] == "sel" and len(s[2]) >= 2 and s[1][0] != "rule":
+        return True
+    return multi_entry_group_on_dotted_base(s[1])
+
+
 SEL_NTS = ["<a>", "<b>", "<c>", "<start>"]
 SEL_GRAMMAR = "<start> ::= <a> <b> <a>\n<a> ::= <c>+ | 'q'\n<b> ::= 'y' | 'z' <c>\n<c> ::= '1' | '2'\n"
 SEL_WORDS = ["1y1", "qyq", "2z12", "11y2", "qz2q", "12z1q", "22z21"]
@@ -1338,9 +1358,19 @@ def selector_phase(ctx: Ctx, n_cases: int) -> None:
         if r[0] != "sel":
             raise MachineryError(f"selector source {src!r} is not read as a selector: {r[:2]}")
         tops.append((r[1], "source"))
+    parens_on = finding_listed("C15/selector-parens-dropped")
+    run.count("finding_class:C15/selector-parens-dropped:" + ("on" if parens_on else "off"))
+    if parens_on:
+        tops.append((["star", ["sel", ["attr", ["attr", ["rule", "<start>"], ["rule", "<a>"]], ["rule", "<c>"]],
+                               [["<c>", False, None], ["<a>", False, None]]]], "paren"))
+        tops.append((["plain", ["sel", ["desc", ["desc", ["rule", "<a>"], ["rule", "<c>"]], ["rule", "<c>"]],
+                                [["<c>", False, None], ["<c>", False, None]]]], "paren"))
     for i in range(n_cases):
         shape = "flat" if i % 5 < 2 else "paren" if i % 5 < 4 else "bad"
-        tops.append((gen_top(rng, shape), shape))
+        t = gen_top(rng, shape)
+        while not parens_on and multi_entry_group_on_dotted_base(t[1]):
+            t = gen_top(rng, shape)
+        tops.append((t, shape))
     ans = driver_ask("drv_print", [{"op": "selprint", "top": t} for t, _ in tops])
     trees = None
     printed: list[list] = []
@@ -1388,7 +1418,8 @@ def selector_phase(ctx: Ctx, n_cases: int) -> None:
             f1, f2 = found(real, tr), found(rr[2], tr)
             run.count("selector_finds_compared")
             if f1 != f2:
-                run.report("C15/selector-changed", f"selector {real_text!r}: the search object finds {str(f1)[:120]} in {str(tr)!r}, "
+                sig = "C15/selector-parens-dropped" if multi_entry_group_on_dotted_base(t[1]) else "C15/selector-changed"
+                run.report(sig, f"selector {real_text!r}: the search object finds {str(f1)[:120]} in {str(tr)!r}, "
                            f"the search read back from its printed form finds {str(f2)[:120]}",
                            dict(sel_replay, input=str(tr)))
                 break
@@ -1964,6 +1995,9 @@ ATOMS = ["str(<a>) == '1'", "str(<b>) != 'y'", "int(<c>) > 1", "len(str(<start>)
          "|<c>| >= 1", "str(<a>) == '<b>'", "str(<a>) == '___x___'", "len(str(<a>)) == len(str(<b>))"]
 # forms whose printed text is known to be wrong (each is its own finding)
 ATOMS_LEN_STAR = ["len(*<c>) > 2", "len(*<a>.<c>) == 1", "len(*<start>.<b>) == 1"]
+# a parenthesised star selection with a trailer: the placeholder is an atom in the ast.unparse text, `*<a>` is not
+ATOMS_STAR_SUBSCRIPTED = ["str((*<a>)[0]) == '1'", "len((*<c>)[0:1]) == 1", "str((*<start>.<a>)[1]) == 'q'"]
+_STAR_TRAILER = re.compile(r"\(\*<[^()]*\)\s*[\[.(]")
 
 
 def gen_constraint(rng, depth: int = 2) -> tuple[str, list[str]]:
@@ -2084,6 +2118,10 @@ def constraint_phase(ctx: Ctx, n_cases: int) -> None:
              ("forall <x> in <a>: str(<x>) == '1'", ["legacy-quantifier"]),
              ("not (int(<b>.<c>) >= 2)", ["not-paren"]),
              ("int(<a>) == 1 or str(<b>) == 'y'", ["may-raise", "bool"])]
+    star_on = finding_listed("C15/star-selection-subscripted")
+    run.count("finding_class:C15/star-selection-subscripted:" + ("on" if star_on else "off"))
+    if star_on:
+        texts += [(a, ["star-subscripted"]) for a in ATOMS_STAR_SUBSCRIPTED]
     for _ in range(n_cases):
         texts.append(gen_constraint(rng, 2))
     seen = set()
@@ -2112,6 +2150,8 @@ def constraint_phase(ctx: Ctx, n_cases: int) -> None:
         known = None
         if "len-star" in feats and "|*" in printed:
             known = "C15/len-star"
+        if _STAR_TRAILER.search(text) and not _STAR_TRAILER.search(printed):
+            known = "C15/star-selection-subscripted"
         # narrow: the legacy form `forall/exists <x> in <sel>:` printed as a comprehension over a bare <sel>
         legacy_bare = "legacy-quantifier" in feats and type(c1).__name__ in ("ForallConstraint", "ExistsConstraint") \
             and re.match(r"^(all|any)\(.* for <x> in <[^*]*\)$", printed) is not None
